@@ -238,6 +238,42 @@ fn semantic_checks(rep: &Report, p: &P, cen: &mut Census) {
             Err(e) => viol("at_lock_time-panic", e),
         }
     }
+    // lock accessors: sorted, de-duplicated values that occur in the policy
+    {
+        fn locks(p: &P, rel: bool, out: &mut Vec<u32>) {
+            match p {
+                P::Older(n) if rel => out.push(*n),
+                P::After(n) if !rel => out.push(*n),
+                _ => {}
+            }
+            for c in p.children() {
+                locks(c, rel, out);
+            }
+        }
+        for rel in [true, false] {
+            let mut exp = vec![];
+            locks(p, rel, &mut exp);
+            exp.sort();
+            exp.dedup();
+            let got = if rel { real.relative_timelocks() } else { real.absolute_timelocks() };
+            if got != exp {
+                viol("timelock-accessor", format!("{}_timelocks() = {:?}, the policy contains {:?}", if rel { "relative" } else { "absolute" }, got, exp));
+            }
+        }
+        // is_trivial / is_unsatisfiable of the normalized policy imply the constant truth table
+        if let Ok(nrm) = guard(|| real.clone().normalized()) {
+            let tt: Vec<bool> = {
+                let atoms = p.atoms();
+                (0..(1u32 << atoms.len().min(12))).map(|m| p.eval(&|a: &P| atoms.iter().position(|x| x == a).map(|i| m & (1 << i) != 0).unwrap_or(false))).collect()
+            };
+            if nrm.is_trivial() && !tt.iter().all(|b| *b) {
+                viol("is_trivial", "normalized() is TRIVIAL but the policy is not a tautology".into());
+            }
+            if nrm.is_unsatisfiable() && tt.iter().any(|b| *b) {
+                viol("is_unsatisfiable", "normalized() is UNSATISFIABLE but some assignment satisfies the policy".into());
+            }
+        }
+    }
     // n_keys / minimum_n_keys
     if real.n_keys() != p.keys().len() {
         viol("n_keys", format!("n_keys = {} but {} key tokens", real.n_keys(), p.keys().len()));
